@@ -21,7 +21,10 @@ FAULTS = {
                   "(vector-set! (vector-ref #(#(1 2) #(3)) 1) 0 9)", "(vector-set! (vector-ref '#(#(1)) 0) 0 9)",
                   "(vector-set! (car (cdr '(1 #(2) 3))) 0 9)", "(vector-set! (cdr '(1 . #(2))) 0 9)",
                   "(vector-set! (vector-ref (car '(#(#(5))) ) 0) 0 9)"],
-    "divZero": ["(/ 1 0)", "(/ 1/2 0)", "(floor-quotient 5 0)", "(/ 0)"],
+    # an exact zero divisor among exact operands, wherever it stands and whatever follows it (an inexact divisor, divisors whose
+    # product leaves the exact range)
+    "divZero": ["(/ 1 0)", "(/ 1/2 0)", "(floor-quotient 5 0)", "(/ 0)", "(/ 5 0 2.0)", "(/ 1 100000 100000 0)", "(/ 5 0 1/2)", "(/ 1 2 0 3)",
+                "(/ 7 0 0.0)", "(floor-remainder 5 0)", "(apply / (list 6 0 1.5))"],
 }
 FAULT_KIND = {"nonProcedure": "nonProcedure", "arity": "arity", "unbound": "unbound", "setUnbound": "unbound",
               "type": "type", "vectorIndex": "vectorIndex", "immutable": "immutable", "divZero": "divZero"}
